@@ -40,6 +40,9 @@ THEOREMS = [
     'Sbepp.Properties.C10.no_silent_access_partial',
     'Sbepp.Properties.C10.no_silent_access_full_false',
     'Sbepp.Properties.C10.write_before_check_false',
+    'Sbepp.Properties.C10.guard_sound_cursor_partial',
+    'Sbepp.Properties.C10.no_silent_access_cursor_partial',
+    'Sbepp.Properties.C10.guard_sound_cursor_full_false',
     'Sbepp.Properties.C10.guard_complete_partial',
     'Sbepp.Properties.C10.guard_complete_touch_full_false',
 ]
@@ -90,10 +93,16 @@ def build_items(chk, run, values_per_msg, muts_per_image, max_image, max_chains,
             run.stats['messages'] += 1
             for k in range(values_per_msg):
                 rng = random.Random(zlib.crc32(repr((chk.seed, c.idx, m['name'], k, 'c10')).encode()))
-                sizes = {'ext': [0, 0, 1, 3], 'counts': [0, 1, 2, 2], 'data': [0, 1, 2, 3]}
-                v = wire.gen_message_value(rng, bo, m, c.s['id'], c.s['version'], ext_ok=True, sizes=sizes)
-                img = c10gen.flatten_message(bo, m, v)
-                if len(img) > max_image:
+                img = None
+                for sizes in ({'ext': [0, 0, 1, 3], 'counts': [0, 1, 2, 2], 'data': [0, 1, 2, 3]},
+                              {'ext': [0, 1], 'counts': [0, 1, 1, 2], 'data': [0, 1, 2]},
+                              {'ext': [0], 'counts': [1, 1, 0], 'data': [0, 1]},
+                              {'ext': [0], 'counts': [1, 0], 'data': [1]}):
+                    v = wire.gen_message_value(rng, bo, m, c.s['id'], c.s['version'], ext_ok=True, sizes=sizes)
+                    img = c10gen.flatten_message(bo, m, v)
+                    if len(img) <= max_image:
+                        break
+                if len(img) > max_image + max_image // 3:
                     skipped += 1
                     continue
                 variants = [(img, None)]
@@ -131,22 +140,31 @@ def judge(chk, run, it, cxx, std, impl, stats):
     model_blocks = it.model
     L = len(it.img)
     reported = set()
+    nev = len(it.evals)
+    for ev in it.evals:
+        stats['kinds'][ev.kind] = stats['kinds'].get(ev.kind, 0) + L + 1
+    nomodel = sum(1 for ev in it.evals if not ev.modelled)
     for n in range(L + 1):
         ib = impl[n]
         mrun, mguard, mspec = model_blocks[n]
+        expb = ''.join('o' if (ev.needs_end <= n and ev.pre_ok) else 'A' for ev in it.evals)
+        chk.cov['evaluations'] += nev
+        stats['calls'] += nev
+        stats['spec_only_calls'] += nomodel
+        for ch in 'oAFU?':
+            k = ib.count(ch)
+            if k:
+                stats['outcomes'][ch] = stats['outcomes'].get(ch, 0) + k
         for j, ev in enumerate(it.evals):
-            chk.cov['evaluations'] += 1
-            stats['calls'] += 1
             got = ib[j]
-            exp = expected_char(ev, n)
-            stats['kinds'][ev.kind] = stats['kinds'].get(ev.kind, 0) + 1
-            stats['outcomes'][got] = stats['outcomes'].get(got, 0) + 1
-            if not ev.modelled:
-                stats['spec_only_calls'] += 1
-            elif mrun[j] == 'U' or ev.huge:
-                stats['model_undefined'] += 1
-            if got == exp and exp == 'A' and ev.needs_end <= c10gen.INF - 1 and n + 1 > ev.needs_end - 1:
+            exp = expb[j]
+            if ev.needs_end == n and got == 'o' or ev.needs_end == n + 1 and got == 'A':
                 stats['boundary'] += 1
+            if got == exp and (got == mrun[j] or not ev.modelled) and (not ev.modelled or (
+                    (mspec[j] == 'i') == (ev.needs_end <= n) and (got != 'o' or mguard[j] == 'g'))):
+                continue
+            if ev.modelled and (mrun[j] == 'U' or ev.huge):
+                stats['model_undefined'] += 1
             bad = None
             past = ev.past_end(n)
             if got in 'FU?':
@@ -223,17 +241,26 @@ def judge_cursor(chk, run, it, cxx, std, impl, stats):
     L = len(it.img)
     reported = set()
     nr = len(it.cruns)
+    for (k, var, needs_end, kind) in it.cruns:
+        kname = '%s.%s' % (kind, var)
+        stats['kinds'][kname] = stats['kinds'].get(kname, 0) + L + 1
     for n in range(L + 1):
         ib = impl[n]
         mrun, mguard, mspec = it.cmodel[n]
+        chk.cov['evaluations'] += nr
+        stats['cursor_calls'] += nr
+        for ch in 'oAFU':
+            c_ = ib.count(ch)
+            if c_:
+                stats['outcomes'][ch] = stats['outcomes'].get(ch, 0) + c_
         for j, (k, var, needs_end, kind) in enumerate(it.cruns):
-            chk.cov['evaluations'] += 1
-            stats['cursor_calls'] += 1
             got = ib[j]
             exp = 'o' if needs_end <= n else 'A'
+            if needs_end == n and got == 'o' or needs_end == n + 1 and got == 'A':
+                stats['boundary'] += 1
+            if got == exp == mrun[j]:
+                continue
             kname = '%s.%s' % (kind, var)
-            stats['kinds'][kname] = stats['kinds'].get(kname, 0) + 1
-            stats['outcomes'][got] = stats['outcomes'].get(got, 0) + 1
             huge = it.cur.huge
             past = it.cur.past_end(k, n)
             bad = None
@@ -286,7 +313,8 @@ def judge_cursor(chk, run, it, cxx, std, impl, stats):
                                                             [r[2] for r in it.cruns], detail=True)[:3000]})
 
 
-def run_schemas(chk, nschemas, configs, values_per_msg, muts_per_image, max_image=220, max_chains=260):
+def run_schemas(chk, nschemas, configs, values_per_msg, muts_per_image, max_image=200, max_chains=160,
+                max_cursor_members=24):
     run = W.WireRun(chk, nschemas, configs, values_per_msg=values_per_msg, seed_salt=10, max_depth=3)
     stats = {'calls': 0, 'kinds': {}, 'outcomes': {}, 'boundary': 0, 'ok_beyond_needs': 0, 'model_mismatch': 0,
              'ok_beyond_needs_kinds': {}, 'ok_beyond_needs_samples': [], 'violations_by_cause': {}, 'model_undefined': 0, 'wrap_regime_ok': 0, 'spec_only_calls': 0,
@@ -315,7 +343,7 @@ def run_schemas(chk, nschemas, configs, values_per_msg, muts_per_image, max_imag
                 else:
                     drivers[(c.idx, cxx, std)] = exe
         chk.log('drivers built: %d' % len(drivers))
-        items = build_items(chk, run, values_per_msg, muts_per_image, max_image, max_chains)
+        items = build_items(chk, run, values_per_msg, muts_per_image, max_image, max_chains, max_cursor_members)
         stats['images'] = len(items)
         stats['mutated_images'] = sum(1 for it in items if it.mut)
         stats['chains'] = sum(len(it.chains) for it in items)
@@ -429,13 +457,16 @@ def run(chk):
         chk.leanchecker(MODULE)
     if chk.tier == 'thorough':
         configs = W.configs_for('thorough')
-        run_, stats = run_schemas(chk, 80, configs, values_per_msg=2, muts_per_image=4)
+        run_, stats = run_schemas(chk, 80, configs, values_per_msg=1, muts_per_image=4, max_image=260, max_chains=260,
+                                  max_cursor_members=40)
     else:
         configs = [('g++', 'c++17'), ('clang++-14', 'c++11')]
         run_, stats = run_schemas(chk, 12, configs, values_per_msg=1, muts_per_image=3)
     W.finish_cov(chk, run_, 'one evaluation = one accessor chain (every accessor kind of a generated message on its own: '
                  'field getters/setters, composite/array views and elements, header access, group size/begin/++/*/[] '
-                 'and size_bytes, entry members recursively, data size/data/elements/resize/assign_range) called on '
+                 'and size_bytes, entry members recursively, data size/data/elements/resize/assign_range and container '
+                 'operations; cursor traversals: every member through the plain cursor and through each of the four '
+                 'wrappers after a traversal prefix) called on '
                  'make_view<Msg>(p, n) over a buffer of exactly n accessible bytes, for one n in 0..|image|, one '
                  'compiler configuration of a checked build; distinct = distinct (schema, message, image)')
     chk.cov['c10'] = {k: v for k, v in stats.items() if k != 'kinds'}
@@ -446,7 +477,12 @@ def run(chk):
         'the begin of a composite is taken as the offset of its first leaf in the model requests (a composite begins at '
         'or before it): verdicts are unaffected because every access through the composite lies at or after that leaf',
         'header values are overwritten with at most 2^32-1 so that derived pointers stay inside the 8 GiB PROT_NONE tail',
-        'cursor-based accessors are covered by the extracted-site theorems and the model, not by the generated drivers',
+        'cursor traversals are skipped for messages in which a composite-typed field begins before its first non-constant '
+        'leaf (custom offset on the first element): the accessor constants cannot be reconstructed from the leaves',
+        'container operations of <data> views (front/back/push_back/pop_back/clear/erase/insert/resize(count)) are '
+        'judged implementation vs specification only (no Lean model of their event order)',
+        'the specification asks for the documented extent of a view (complete header / array / size() elements): calls '
+        'that complete with fewer bytes (clear, pop_back) are counted as ok_beyond_needs, not as failures',
         'constant evaluation (C++20 constexpr) is not exercised by the drivers',
     ]
 
